@@ -383,7 +383,8 @@ class World:
                     del funcs[(a, b)]
                     funcs[(a_, b_)] = f
         dfl = {k: F(v) for k, v in raw["defaults"]}
-        s["decl"] = (dfl, funcs, [(r["name"], r["rhs"]) for r in raw["redefs"]])
+        # a redefinition may designate the unit by canonical name, symbol or alias: the unit is what counts
+        s["decl"] = (dfl, funcs, [(self.plain().get_name(r["name"]), r["rhs"]) for r in raw["redefs"]])
         return s["decl"]
 
     def resolve(self, ref):
@@ -667,7 +668,7 @@ def gen_world_text(rng, wid):
     """a small registry: 3-6 base dimensions, derived units, a prefix, derived dimensions"""
     k = rng.randint(3, 6)
     letters = "abcdef"[:k]
-    lines, unit_lines, units_of = ["kilo- = 1000 = k-"], {}, {}
+    lines, unit_lines, units_of, spell = ["kilo- = 1000 = k-"], {}, {}, {}
     for c in letters:
         lines.append(f"u{c} = [d{c}]")
         units_of[c] = [f"u{c}"]
@@ -675,7 +676,8 @@ def gen_world_text(rng, wid):
             name = f"u{c}{j}"
             scale = rng.choice(["3", "7/2", "2.5", "12", "1/8", "0.3", "250"])
             ref = rng.choice(units_of[c])
-            tail = rng.choice(["", f" = s{c}{j}", f" = s{c}{j} = al_{c}{j}", f" = _ = al_{c}{j}"])
+            tail = rng.choice(["", f" = s{c}{j}", f" = s{c}{j} = al_{c}{j}", f" = s{c}{j} = al_{c}{j}", f" = _ = al_{c}{j}"])
+            spell[name] = [name] + ([f"s{c}{j}"] if f" s{c}{j}" in tail else []) + ([f"al_{c}{j}"] if "al_" in tail else [])
             line = f"{name} = {scale} * {ref}{tail}"
             lines.append(line)
             unit_lines[name] = line
@@ -687,6 +689,7 @@ def gen_world_text(rng, wid):
         if nm not in ddims:
             ddims[nm] = (a, b)
             lines.append(f"{nm} = [d{b}] / [d{a}]")
+    gen_world_text.spell = spell
     return letters, lines, unit_lines, units_of, ddims
 
 
@@ -737,6 +740,8 @@ def gen_world(rng, wid):
     nodes = node_pool(rng, letters, ddims)
     edge_pool = [tuple(rng.sample(range(len(nodes)), 2)) for _ in range(rng.randint(4, 9))]
     params = ["n", "m", "kp"]
+    spell = gen_world_text.spell
+    hot = rng.sample(sorted(unit_lines), min(2, len(unit_lines)))
     raws = []
     for ci in range(rng.randint(3, 5)):
         rels, used = [], set()
@@ -751,13 +756,17 @@ def gen_world(rng, wid):
         dfl = [(p, rng.choice(["1", "2", "3", "0.5", "4", "0"] if rng.random() < 0.08 else ["1", "2", "3", "0.5", "4"]))
                for p in sorted(used)]
         redefs = []
-        if rng.random() < 0.35 and unit_lines:
-            name = rng.choice(sorted(unit_lines))
+        for _ in range(rng.choice([0, 0, 1, 1, 1, 2]) if unit_lines else 0):
+            # mostly one of the world's two "hot" units, so that active contexts collide on a unit;
+            # the unit is designated by its canonical name, its symbol or an alias
+            name = rng.choice(hot) if rng.random() < 0.75 else rng.choice(sorted(unit_lines))
             c = name[1]
             # only units created before `name`: every definition (original or redefined) points to an
             # earlier unit, so no combination of active redefinitions can close a cycle
             refs = units_of[c][:units_of[c].index(name)]
-            redefs.append({"name": name, "rhs": f"{rng.choice(['5', '9/4', '0.2', '40'])} * {rng.choice(refs)}"})
+            ref = rng.choice(refs)
+            redefs.append({"name": rng.choice(spell[name]),
+                           "rhs": f"{rng.choice(['5', '9/4', '0.2', '40', '7', '11'])} * {rng.choice(spell.get(ref, [ref]))}"})
         raws.append({"name": f"rc{ci}", "aliases": rng.choice([[], [f"r{ci}"], [f"r{ci}", f"rr{ci}"]]),
                      "defaults": dfl, "rels": rels, "redefs": redefs})
     # a diamond A->B->D, A->C->D spread over the contexts: two shortest chains with different values
@@ -1116,12 +1125,17 @@ def run(ck):
          "rels": [{"bidir": True, "src": "[dab]", "dst": "[dd]", "eq": "1.0 * ud * ub / ua / value / m"},
                   {"bidir": False, "src": "[da]", "dst": "[dd]", "eq": "13.0 * value * ud / ua * n"}]},
         {"name": "R", "aliases": [], "defaults": [], "redefs": [{"name": "ub1", "rhs": "9 * ub"}, {"name": "ua1", "rhs": "2 * ua"}], "rels": []},
+        # the same unit ua1 designated by its symbol; and twice in one context (the last line counts)
+        {"name": "S", "aliases": [], "defaults": [], "redefs": [{"name": "sa1", "rhs": "6 * ua"}], "rels": []},
+        {"name": "T", "aliases": [], "defaults": [], "redefs": [{"name": "ua1", "rhs": "7 * ua"}, {"name": "sa1", "rhs": "8 * ua"}], "rels": []},
     ]
     text_b = dtext + "\n".join(sum([ctx_lines(c) + ["@end"] for c in dctx[:2]], [])) + "\n"
     wb = World("directed", "directed", text_b, dunits)
     wb.add_file_contexts(dctx[:2])
     wb.add_object_context(dctx[2], True)
     wb.add_object_context(dctx[3], True)
+    wb.add_object_context(dctx[4], True)
+    wb.add_object_context(dctx[5], False)
     wb.params, wb.units_of, wb.letters = ["n", "m"], {"a": ["ua", "ua1", "ua2"], "b": ["ub", "ub1"], "c": ["uc", "uc1"], "d": ["ud"]}, "abcd"
     cases_b = []
     U = lambda **kw: {k: F(v) for k, v in kw.items()}
@@ -1142,6 +1156,12 @@ def run(ck):
         ([N("C"), N("R")], U(ua2=1), U(ua=1)), ([N("R"), N("C")], U(ua2=1), U(ua=1)),      # newest redefinition wins
         ([N("R")], U(kiloua1=1), U(ua=1)), ([N("R")], U(ub1=1), U(ub=1)), ([N("R"), N("A")], U(ua1=1), U(ub1=1)),
         ([N("A")], U(ua=1), U(ua1=1)), ([N("A")], U(ub=1), U(ua=1)), ([N("A")], U(ud=1), U(ua=1)),   # same-dim, unreachable (rules are one way)
+        # colliding redefinitions under different spellings: the most recently enabled context is in force
+        ([N("S")], U(ua2=1), U(ua=1)), ([N("C"), N("S")], U(ua2=1), U(ua=1)), ([N("S"), N("C")], U(ua2=1), U(ua=1)),
+        ([N("C,S")], U(ua2=1), U(ua=1)), ([N("S,C")], U(ua2=1), U(ua=1)), ([N("R"), N("S")], U(kiloua1=1), U(ua=1)),
+        ([N("S"), N("R")], U(sa1=1), U(ua=1)), ([N("C"), N("R"), N("S")], U(ua2=1), U(ua=1)),
+        ([{"refs": [("obj", 5)], "kw": {}}], U(ua2=1), U(ua=1)), ([N("S"), {"refs": [("obj", 5)], "kw": {}}], U(ua2=1), U(ua=1)),
+        ([{"refs": [("obj", 5)], "kw": {}}, N("S")], U(ua2=1), U(ua=1)), ([N("S"), N("A")], U(ua1=1), U(ub=1)),
         ([{"refs": [("name", "nope")], "kw": {}}], U(ua=1), U(ub=1)),                        # unknown context
         ([N("A"), {"refs": [("alias", "a1")], "kw": {}}], U(ua=1), U(ub=1)),
     ]
